@@ -235,3 +235,30 @@ func TestRegressEvidenceBudgetExceedsBlockRoom(t *testing.T) {
 		t.Errorf("the block carries no evidence although several items fit")
 	}
 }
+
+// TestRegressMedianFloorFaultyMinority: four validators of power 1; the commit for block 1 carries three precommits
+// (the fourth did not arrive), one of them from a faulty validator stamped an hour in the past. WeightedMedian picks
+// the element whose cumulative weight reaches floor(3/2) = 1, i.e. the faulty one: the block the correct proposer
+// builds from this commit has a time before the previous block and is rejected by ValidateBlock on every node.
+func TestRegressMedianFloorFaultyMinority(t *testing.T) {
+	c, err := lib.NewChain(lib.ChainSpec{ChainID: "regress-c06", Keys: []int{0, 1, 2, 3}, Powers: []int64{1, 1, 1, 1}})
+	if err != nil {
+		t.Fatal(err)
+	}
+	defer c.Close()
+	flags := []types.BlockIDFlag{types.BlockIDFlagCommit, types.BlockIDFlagCommit, types.BlockIDFlagCommit, types.BlockIDFlagAbsent}
+	offs := []time.Duration{-time.Hour, time.Second, 2 * time.Second, 0}
+	if err := c.Advance(&lib.HeightPlan{Flags: flags, TsOffsets: offs}); err != nil {
+		t.Fatal(err)
+	}
+	blk, _ := c.BuildNext(&lib.HeightPlan{}) // the correct proposer
+	err = c.Exec.ValidateBlock(c.State, cloneBlock(blk))
+	if err != nil {
+		if lib.IsKnown(findingFloor) && !blk.Time.After(c.State.LastBlockTime) {
+			lib.ObservedKnown(findingFloor)
+			return
+		}
+		t.Errorf("commit with 3 of 4 unit-power precommits, one faulty (1/4 of the power) stamped one hour before the block: "+
+			"the correct proposer's block has time %v (previous block %v) and is rejected: %v", blk.Time, c.State.LastBlockTime, err)
+	}
+}
